@@ -201,62 +201,80 @@ func genGraph(r *lib.Rng, tier string) *Case {
 		}, 0)
 	}
 	c.InChunks = r.Range(1, 3)
-	// options for the whole graph: 0-5 separate WithCallbacks (three single ones give len 3 cap 4)
-	nU := []int{0, 1, 2, 3, 3, 3, 4, 5}[r.Intn(8)]
-	for i := 0; i < nU; i++ {
-		hs := pickSome(r, nH, 1, 1)
-		if r.Chance(1, 6) {
-			hs = pickSome(r, nH, 2, 2)
-		}
-		c.Opts = append(c.Opts, GOpt{Hs: hs})
-	}
-	// designated options
-	nD := r.Intn(5)
-	for i := 0; i < nD; i++ {
-		o := GOpt{Hs: pickSome(r, nH, 1, 1)}
-		if r.Chance(1, 6) {
-			o.Hs = pickSome(r, nH, 2, 2)
-		}
-		nP := 1
-		if r.Chance(1, 4) {
-			nP = 2
-		}
-		for j := 0; j < nP; j++ {
-			var p []int
-			switch x := r.Intn(90); {
-			case x == 0: // unknown node
-				p = []int{99}
-			case x == 1 && len(g.lambdas) > 0: // below a component
-				p = append(append([]int(nil), g.lambdas[r.Intn(len(g.lambdas))]...), 1)
-			case x == 2: // empty path
-				p = []int{}
-			case x < 25 && len(g.subs) > 0: // a sub graph node as a whole
-				p = g.subs[r.Intn(len(g.subs))]
-			case x < 50 && len(g.lambdas) > 0:
-				p = g.lambdas[r.Intn(len(g.lambdas))]
-			default:
-				p = g.units[r.Intn(len(g.units))]
+	genOpts := func() []GOpt {
+		var out []GOpt
+		// options for the whole graph: 0-5 separate WithCallbacks (three single ones give len 3 cap 4)
+		nU := []int{0, 1, 2, 3, 3, 3, 4, 5}[r.Intn(8)]
+		for i := 0; i < nU; i++ {
+			hs := pickSome(r, nH, 1, 1)
+			if r.Chance(1, 6) {
+				hs = pickSome(r, nH, 2, 2)
 			}
-			dup := false
-			for _, q := range o.Paths {
-				if fmt.Sprint(q) == fmt.Sprint(p) {
-					dup = true
+			out = append(out, GOpt{Hs: hs})
+		}
+		// designated options
+		nD := r.Intn(5)
+		for i := 0; i < nD; i++ {
+			o := GOpt{Hs: pickSome(r, nH, 1, 1)}
+			if r.Chance(1, 6) {
+				o.Hs = pickSome(r, nH, 2, 2)
+			}
+			nP := 1
+			if r.Chance(1, 4) {
+				nP = 2
+			}
+			for j := 0; j < nP; j++ {
+				var p []int
+				switch x := r.Intn(90); {
+				case x == 0: // unknown node
+					p = []int{99}
+				case x == 1 && len(g.lambdas) > 0: // below a component
+					p = append(append([]int(nil), g.lambdas[r.Intn(len(g.lambdas))]...), 1)
+				case x == 2: // empty path
+					p = []int{}
+				case x < 25 && len(g.subs) > 0: // a sub graph node as a whole
+					p = g.subs[r.Intn(len(g.subs))]
+				case x < 50 && len(g.lambdas) > 0:
+					p = g.lambdas[r.Intn(len(g.lambdas))]
+				default:
+					p = g.units[r.Intn(len(g.units))]
+				}
+				dup := false
+				for _, q := range o.Paths {
+					if fmt.Sprint(q) == fmt.Sprint(p) {
+						dup = true
+					}
+				}
+				if !dup {
+					o.Paths = append(o.Paths, append([]int{}, p...))
 				}
 			}
-			if !dup {
-				o.Paths = append(o.Paths, append([]int{}, p...))
-			}
+			out = append(out, o)
 		}
-		c.Opts = append(c.Opts, o)
+		// options arrive in any order
+		perm := r.Perm(len(out))
+		opts := make([]GOpt, len(out))
+		for i, j := range perm {
+			opts[i] = out[j]
+		}
+		return opts
 	}
-	// options arrive in any order
-	perm := r.Perm(len(c.Opts))
-	opts := make([]GOpt, len(c.Opts))
-	for i, j := range perm {
-		opts[i] = c.Opts[j]
+	c.Opts = genOpts()
+	// the run that resumes an interrupted run is a call of its own: a third of the sequences give it
+	// call options of its own (the handlers of the interrupted call must not be served again)
+	if c.Store && totalIntr(c) > 0 && r.Chance(1, 3) {
+		c.Opts2 = genOpts()
+		c.HasOpts2 = true
 	}
-	c.Opts = opts
 	return c
+}
+
+// optsFor: the call options of the k-th run of the sequence
+func (c *Case) optsFor(k int) []GOpt {
+	if k > 0 && c.HasOpts2 {
+		return c.Opts2
+	}
+	return c.Opts
 }
 
 func chainable(stages [][]*GNode) bool {
@@ -742,6 +760,7 @@ type expectation struct {
 	calls   map[int]*GCall
 	errKind map[int]int  // uid -> outFail / outIntr for a unit that ends with an error
 	badOpts map[int]bool // uid -> the graph rejected its call options
+	opts    []GOpt       // the call options of the run
 	ps      *planSt
 }
 
@@ -1020,14 +1039,14 @@ func isPrefix(p, q []int) bool {
 
 // multiplicity: how many times handler h was attached to the unit at key path [path]
 // (global, for the whole graph, or designated to the unit / to a sub graph containing it)
-func multiplicity(c *Case, h int, path []int) int {
+func multiplicity(c *Case, opts []GOpt, h int, path []int) int {
 	m := 0
 	for _, g := range c.Globals {
 		if g == h {
 			m++
 		}
 	}
-	for _, o := range c.Opts {
+	for _, o := range opts {
 		k := 0
 		for _, x := range o.Hs {
 			if x == h {
@@ -1129,7 +1148,7 @@ func expectedEvents(c *Case, x *expectation) int {
 		}
 		st, en := unitTimings(c, x, uid)
 		for _, sp := range c.Handlers {
-			m := multiplicity(c, sp.ID, x.paths[uid]) * x.execs[uid]
+			m := multiplicity(c, x.opts, sp.ID, x.paths[uid]) * x.execs[uid]
 			if needsT(sp, st) {
 				total += m
 			}
@@ -1237,38 +1256,41 @@ func runGraph(c *Case) lib.Result {
 		}
 		installGlobals(c, hs)
 		defer callbacks.InitCallbackHandlers(nil)
-		opts := append([]compose.Option{}, cpOpt...)
-		for _, o := range c.Opts {
-			op := compose.WithCallbacks(toH(o.Hs)...)
-			if len(o.Paths) > 0 {
-				var ps []*compose.NodePath
-				allSingle := true
-				for _, p := range o.Paths {
-					keys := make([]string, len(p))
-					for i, k := range p {
-						keys[i] = nodeKey(k)
+		mkCallOpts := func(gopts []GOpt) []compose.Option {
+			opts := append([]compose.Option{}, cpOpt...)
+			for _, o := range gopts {
+				op := compose.WithCallbacks(toH(o.Hs)...)
+				if len(o.Paths) > 0 {
+					var ps []*compose.NodePath
+					allSingle := true
+					for _, p := range o.Paths {
+						keys := make([]string, len(p))
+						for i, k := range p {
+							keys[i] = nodeKey(k)
+						}
+						ps = append(ps, compose.NewNodePath(keys...))
+						if len(p) != 1 {
+							allSingle = false
+						}
 					}
-					ps = append(ps, compose.NewNodePath(keys...))
-					if len(p) != 1 {
-						allSingle = false
+					if allSingle && c.Seed%2 == 0 {
+						keys := make([]string, len(o.Paths))
+						for i, p := range o.Paths {
+							keys[i] = nodeKey(p[0])
+						}
+						op = op.DesignateNode(keys...)
+					} else {
+						op = op.DesignateNodeWithPath(ps...)
 					}
 				}
-				if allSingle && c.Seed%2 == 0 {
-					keys := make([]string, len(o.Paths))
-					for i, p := range o.Paths {
-						keys[i] = nodeKey(p[0])
-					}
-					op = op.DesignateNode(keys...)
-				} else {
-					op = op.DesignateNodeWithPath(ps...)
-				}
+				opts = append(opts, op)
 			}
-			opts = append(opts, op)
+			return opts
 		}
 		ps := newPlan(c)
 		for k := 0; k < maxRuns; k++ {
 			rr.nextRun()
-			result := call(run1, c.Paradigm, c.InChunks, opts...)
+			result := call(run1, c.Paradigm, c.InChunks, mkCallOpts(c.optsFor(k))...)
 			if !waitPending(s, 10*time.Second) {
 				fail("graph-stream", "run %d: a handler's copy of a stream payload never ended", k)
 			}
@@ -1276,7 +1298,8 @@ func runGraph(c *Case) lib.Result {
 				// eager task collection returns as soon as one task has failed: the other tasks of
 				// that step are still running; give them time to finish
 				x := newExpectation(ps)
-				x.graph(0, c.Stages, c.Opts, nil)
+				x.opts = c.optsFor(k)
+				x.graph(0, c.Stages, c.optsFor(k), nil)
 				want := expectedEvents(c, x)
 				wantBodies := 0
 				for uid, k := range x.kind {
@@ -1324,8 +1347,8 @@ func runGraph(c *Case) lib.Result {
 			if result != "intr" {
 				break
 			}
-			if ps.graphOutcome(c.Stages, c.Opts) == outIntr {
-				ps.advance(c.Stages, c.Opts)
+			if ps.graphOutcome(c.Stages, c.optsFor(k)) == outIntr {
+				ps.advance(c.Stages, c.optsFor(k))
 			}
 		}
 	})
@@ -1349,7 +1372,8 @@ func runGraph(c *Case) lib.Result {
 	nIntrRuns := 0
 	for k := 0; ; k++ {
 		x := newExpectation(ps)
-		out := x.graph(0, c.Stages, c.Opts, nil)
+		x.opts = c.optsFor(k)
+		out := x.graph(0, c.Stages, c.optsFor(k), nil)
 		x0 := newExpectation(ps)
 		out0 := x0.graph(0, c.Stages, nil, nil)
 		if k >= len(runs) {
@@ -1413,14 +1437,14 @@ func runGraph(c *Case) lib.Result {
 			break
 		}
 		nIntrRuns++
-		ps.advance(c.Stages, c.Opts)
+		ps.advance(c.Stages, c.optsFor(k))
 	}
 	if len(oracle) > 0 {
 		res.Oracle = strings.Join(oracle, " | ")
 		res.Sig = sig
 	}
 
-	var optT []string
+	var optT, optT2 []string
 	nDes := 0
 	for _, o := range c.Opts {
 		optT = append(optT, fmt.Sprintf("(%s, %s)", nlist(o.Hs), nlistlist(o.Paths)))
@@ -1428,11 +1452,14 @@ func runGraph(c *Case) lib.Result {
 			nDes++
 		}
 	}
+	for _, o := range c.optsFor(1) {
+		optT2 = append(optT2, fmt.Sprintf("(%s, %s)", nlist(o.Hs), nlistlist(o.Paths)))
+	}
 	if c.Store && !modelHasRuns {
 		res.CoqTerm = "" // stopgap while Corr/C10.v has no CaseRuns
 	} else if c.Store {
-		res.CoqTerm = fmt.Sprintf("CaseRuns %s %s\n  [%s]\n  %s 0 0\n  %s\n  [%s]", nlist(c.Globals), coqNeeds(c.Handlers),
-			strings.Join(optT, "; "), lib.CoqBool(c.Paradigm != "invoke"), coqRStages(c.Stages), strings.Join(runTerms, ";\n   "))
+		res.CoqTerm = fmt.Sprintf("CaseRuns %s %s\n  [%s]\n  [%s]\n  %s 0 0\n  %s\n  [%s]", nlist(c.Globals), coqNeeds(c.Handlers),
+			strings.Join(optT, "; "), strings.Join(optT2, "; "), lib.CoqBool(c.Paradigm != "invoke"), coqRStages(c.Stages), strings.Join(runTerms, ";\n   "))
 	} else {
 		first := "([], [])"
 		if len(runTerms) > 0 {
@@ -1488,7 +1515,7 @@ func runGraph(c *Case) lib.Result {
 	res.Tags = []string{"kind:graph", "paradigm:" + c.Paradigm, "nodes:" + bucket(nNodes), fmt.Sprintf("parallel:%d", maxPar),
 		fmt.Sprintf("nesting:%d", depth), fmt.Sprintf("opts-undesignated:%d", len(c.Opts)-nDes), fmt.Sprintf("opts-designated:%d", nDes),
 		fmt.Sprintf("globals:%d", len(c.Globals)), "class:" + obs.Class, fmt.Sprintf("dag:%v", c.Dag), fmt.Sprintf("chain:%v", c.Chain),
-		fmt.Sprintf("store:%v", c.Store), fmt.Sprintf("eager:%v", c.Eager), fmt.Sprintf("runs:%d", len(runs)),
+		fmt.Sprintf("store:%v", c.Store), fmt.Sprintf("eager:%v", c.Eager), fmt.Sprintf("resume-with-other-options:%v", c.HasOpts2), fmt.Sprintf("runs:%d", len(runs)),
 		fmt.Sprintf("interrupted-runs:%d", nIntrRuns)}
 	if tot := nLabels[lblIn] + nLabels[lblOut] + nLabels[lblErr] + nLabels[lblUnknown] + nLabels[lblOther]; tot > 0 {
 		res.Tags = append(res.Tags, fmt.Sprintf("payloads-identified:%d%%", 10*((nLabels[lblIn]+nLabels[lblOut]+nLabels[lblErr])*10/tot)))
@@ -1779,7 +1806,7 @@ func checkRun(c *Case, x *expectation, run oneRun, first bool, specs map[int]HSp
 		for _, sp := range c.Handlers {
 			a := cnt[hk{sp.ID, unitName(uid)}]
 			starts, ends, errs := a[0]+a[3], a[1]+a[4], a[2]
-			want := multiplicity(c, sp.ID, x.paths[uid]) * x.execs[uid]
+			want := multiplicity(c, x.opts, sp.ID, x.paths[uid]) * x.execs[uid]
 			// the timings of the unit's start and end-or-error callbacks follow from the paradigm the
 			// graph calls the component in; a handler with a TimingChecker is invoked for the ones it asks for
 			stT, enT := unitTimings(c, x, uid)
@@ -1800,7 +1827,7 @@ func checkRun(c *Case, x *expectation, run oneRun, first bool, specs map[int]HSp
 					sg = "graph-wrongnode"
 				}
 				fail(sg, "handler %d unit %s: %d start / %d end / %d error events (by timing %v), want %d with timing %d at the start and %d with timing %d at the end (attached x%d, unit executed %dx, ends with error=%v)",
-					sp.ID, unitName(uid), starts, ends, errs, a, wantS, stT, wantE, enT, multiplicity(c, sp.ID, x.paths[uid]), x.execs[uid], x.failed[uid])
+					sp.ID, unitName(uid), starts, ends, errs, a, wantS, stT, wantE, enT, multiplicity(c, x.opts, sp.ID, x.paths[uid]), x.execs[uid], x.failed[uid])
 			}
 		}
 	}
